@@ -79,7 +79,7 @@ def evaluate(cfg, stim, backend="fast"):
                 hidden = -(-3 * pu_ // ps_)
                 visible = sum(1 for g, t in ev["w_pulse"] if g < gt and t <= tl - hidden)
                 shallow = cfg["wdata_depth"] < cfg["cmd_depth"] + stim["slave"].get("qmax", 8)
-                f["key"] = "wdata_fifo_shallower_than_commands_in_flight" if shallow and ((pushed - pulsed) >= cfg["wdata_depth"] - 3 or (pushed - visible) >= cfg["wdata_depth"] - 1) else "W-other"
+                f["key"] = "wdata_fifo_shallower_than_commands_in_flight" if shallow and ((pushed - pulsed) >= cfg["wdata_depth"] - 3 or (pushed - visible) >= cfg["wdata_depth"] - 1 or cfg["wdata_depth"] <= 4) else "W-other"      # (<= 4: the minimum depth cannot cover its own pointer synchronisation)
                 f["what"] += " [%d write words entered, %d strobed, wdata FIFO depth %d, cmd FIFO depth %d]" % (pushed, pulsed, cfg["wdata_depth"], cfg["cmd_depth"])
     x = run.xlog
     for name, a, b in (("commands", "cmd_u", "cmd_s"), ("write words", "wd_u", "wd_s"), ("read words", "rd_s", "rd_u")):
@@ -107,7 +107,7 @@ def evaluate(cfg, stim, backend="fast"):
 
 
 def shards(tier, seed):
-    out = [dict(tier=tier, seed=seed * 1000 + i, idx=i, ndev=(3 if tier == "quick" else 16), ncases=(40 if tier == "quick" else 300)) for i in range(16)]
+    out = [dict(tier=tier, seed=seed * 1000 + i, idx=i, ndev=(3 if tier == "quick" else 10), ncases=(40 if tier == "quick" else 100)) for i in range(16)]
     for i in range(8 if tier == "quick" else 16):
         out.append(dict(kind="core", tier=tier, seed=seed * 1000 + 500 + i, idx=i, ncfg=(2 if tier == "quick" else 4), ncases=(12 if tier == "quick" else 20)))
     return out
